@@ -60,6 +60,17 @@ fn load_rom(rom_file_name: String) -> Option<emulator::Core> {
     return None;
   }
 
+  // The ROM is mapped at the size its header declares. Pages past the end of a
+  // smaller file cannot be read, so such a file has to be refused here.
+  let file_length = {
+    use std::io::{Seek, SeekFrom};
+    rom_file.seek(SeekFrom::End(0)).unwrap_or(0)
+  };
+  if (file_length as usize) < header.get_rom_size_bytes() {
+    println!("ROM file is smaller than the size declared in its header");
+    return None;
+  }
+
   println!("Loading \"{}\"", header.get_title());
 
   Some(emulator::Core::from_rom_file(&mut rom_file, header))
